@@ -3,7 +3,7 @@
    dbv2.go: SaveEntity / JournalEvents, rules.go and the constraints of the metrics_v5 / entity_history tables;
    [wf] is the invariant of every state reachable from the empty database (C15_reachable_wf). *)
 From Coq Require Import ZArith List Bool Sorting.Sorted.
-From SH Require Import Common.Wrap Metadata.Model Metadata.Proofs Metadata.ProofsC15.
+From SH Require Import Common.Wrap Metadata.Model Metadata.Proofs Metadata.ProofsC15 Metadata.JournalModel Metadata.ProofsJournal.
 Import ListNotations.
 Open Scope Z_scope.
 
@@ -104,6 +104,21 @@ Theorem C15_journal_latest_once_ascending :
              In x (ents s) -> since < r_ver x -> In x j).
 Proof. exact journal_spec. Qed.
 
+(* the same clause at the RPC layer (rpc_handler.go: RawGetJournal long-poll registration + broadcastJournal with its
+   per-client trim): for EVERY interleaving of edits, polls (any page size) and broadcasts, and any number of clients
+   starting anywhere, the concatenation of everything delivered to a client is strictly ascending (so no version is
+   delivered twice), lies above the client's starting point and never beyond its cursor *)
+Theorem C15_journal_stream_exactly_once_ascending :
+  forall v c ops s cls rs s' cls',
+  wf s -> Forall cinv cls -> jrun v c (s, cls) ops = (rs, (s', cls')) ->
+  Forall (fun cl => StronglySorted Z.lt (cl_stream cl) /\
+                    Forall (fun x => cl_start cl < x /\ x <= cl_from cl) (cl_stream cl)) cls'.
+Proof. exact journal_stream_exactly_once_ascending. Qed.
+
+(* a fresh client (nothing delivered yet) satisfies the invariant the theorem starts from *)
+Theorem C15_new_journal_client_ok : forall from, cinv (new_client from).
+Proof. exact new_client_inv. Qed.
+
 (* ---- non-vacuity: a concrete history with namespaces, a namespaced metric, a rename, a delete, a predefined
    entity, a stale edit and a racing pair; the premises of the theorems above are met on it ---- *)
 Definition obs_like (r : res) : Z * Z * Z :=
@@ -121,3 +136,12 @@ Example C15_nonvacuous_history :
   map obs_like (results faithful ex_cfg empty ex_ops) = [(0, 1, 1); (0, 2, 2); (0, 3, 3); (0, 3, 4); (1, 0, 0); (0, 3, 5); (0, -2, 6)]
   /\ map r_ver (journal (run faithful ex_cfg empty ex_ops) 2 100) = [5; 6].
 Proof. vm_compute. split; reflexivity. Qed.
+
+(* non-vacuity of the long-poll theorem: reader A waits from v2; v3 commits without the broadcast; reader B reads v3
+   and waits from v3; the late broadcast answers A only; B gets v4 exactly once *)
+Example C15_nonvacuous_longpoll :
+  let ops := [JEdit (OSave 0 1 0 0 0 true 0 0 0 60); JEdit (OSave 0 2 0 0 0 true 0 0 0 61);
+              JPoll 0 1000; JEdit (OSave 0 3 0 0 0 true 0 0 0 62); JPoll 1 1000; JPoll 1 1000; JBroadcast;
+              JEdit (OSave 0 4 0 0 0 true 0 0 0 63); JBroadcast] in
+  map cl_stream (snd (snd (jrun faithful ex_cfg (empty, [new_client 2; new_client 2]) ops))) = [[3]; [3; 4]].
+Proof. vm_compute. reflexivity. Qed.
